@@ -180,6 +180,8 @@ def run_unit(name, mod, only_props, tier):
     # ---- boolean-valued functions
     for fname, c in getattr(mod, "PREDICATES", {}).items():
         ob = new_ob(_slug(fname), " :: ".join(c["item"]), c["clause"], c.get("props"))
+        if c.get("witness"):
+            ob.witness = c["witness"]
         t0 = time.time()
         try:
             body, header = fn_body(read(c.get("file", mod.FILE)), c["item"])
@@ -187,17 +189,19 @@ def run_unit(name, mod, only_props, tier):
             env = c["env"]() if "env" in c else mod.make_env()
             loc = c["inputs"]()
             out, _ = pv.run_body(env, body, loc)
+            carried = None
             if isinstance(out, pv.Opt):
-                # CtOption-valued decoder: the condition formula is checked; the carried value must be
-                # the one named by the contract
-                if "value" in c and not c["value"](out.value, loc):
-                    raise pv.Unsupported("CtOption carries an unexpected value")
+                # CtOption / Result-valued decoder: the condition formula is checked; the carried value must
+                # be the one named by the contract
+                carried = out.value
                 out = out.cond
             if not isinstance(out, tuple):
                 raise pv.Unsupported("result is not a Choice formula")
             spec = c["spec"](loc)
             okk, cex = pv.formulas_equivalent(out, spec)
             ob.vcs = 1
+            if okk and carried is not None and "value" in c and not c["value"](carried, loc):
+                raise pv.Unsupported("the success condition matches but the carried value is not the one named by the contract")
             if okk:
                 ob.status = DISCHARGED
             else:
@@ -206,7 +210,44 @@ def run_unit(name, mod, only_props, tier):
         except (pv.Unsupported, rs.ScanError) as e:
             ob.status = UNDECIDED
             ob.detail = "%s: %s" % (type(e).__name__, e)
+        except Exception as e:  # a crash of the generator is a tool limit, never an alarm
+            ob.status = UNDECIDED
+            ob.detail = "PolyVC internal error: %s: %s" % (type(e).__name__, e)
         ob.seconds = time.time() - t0
+
+    # ---- constructor frames: every struct literal of a type lies in a function whose contract establishes
+    # the type's invariant (the discipline a type-invariant checker enforces at each constructor)
+    for fname, c in getattr(mod, "CONSTRUCTORS", {}).items():
+        ob = new_ob(_slug(fname), c["type"] + " (struct literals)", c["clause"], c.get("props"))
+        try:
+            text = read(c.get("file", mod.FILE))
+            m = rs.mask(text)
+            sites = []
+            outside = []
+            for it in rs.split_items(text, m, 0, len(text)):
+                if it.kind == "impl" and re.search(r"\b%s\b" % re.escape(c["type"]), it.header) and it.body_open >= 0:
+                    for sub in rs.split_items(text, m, it.body_open + 1, it.body_close):
+                        if sub.kind == "fn" and sub.body_open >= 0:
+                            body = m[sub.body_open:sub.body_close]
+                            if re.search(r"\b(Self|%s)\s*\{" % re.escape(c["type"]), body):
+                                mm = re.search(r"\bfn\s+(\w+)", sub.header)
+                                sites.append(mm.group(1) if mm else sub.header)
+                elif it.kind in ("fn", "impl", "mod") and it.body_open >= 0:
+                    if re.search(r"\b%s\s*\{" % re.escape(c["type"]), m[it.body_open:it.body_close]):
+                        outside.append(it.header[:80])
+            info["edits"].append("scan %s for struct literals of %s (masked text; nothing else read)" % (c.get("file", mod.FILE), c["type"]))
+            ob.vcs = 1
+            extra = sorted(set(sites) - set(c["allowed"])) + outside
+            missing = sorted(set(c["allowed"]) - set(sites))
+            if not extra and not missing:
+                ob.status = DISCHARGED
+            else:
+                # a new construction site may well establish the invariant: undecided, never an alarm by itself
+                ob.status = UNDECIDED
+                ob.detail = "struct literals of %s found in %s (contracted constructors: %s)" % (c["type"], sorted(set(sites)) + outside, c["allowed"])
+        except rs.ScanError as e:
+            ob.status = UNDECIDED
+            ob.detail = "lost anchor: %s" % e
 
     # ---- call chains
     for fname, c in getattr(mod, "CHAINS", {}).items():
@@ -251,6 +292,8 @@ def _fmt(f):
         return "[%s = 0]" % sp.expand(f[1])
     if f[0] == "atom":
         return f[1]
+    if f[0] == "const":
+        return "true" if f[1] else "false"
     if f[0] == "not":
         return "!(%s)" % _fmt(f[1])
     return "(%s %s %s)" % (_fmt(f[1]), "&" if f[0] == "and" else "|", _fmt(f[2]))
